@@ -71,21 +71,46 @@ func (r ReferenceStorage) Reference(n plumbing.ReferenceName) (*plumbing.Referen
 }
 
 // IterReferences honors the storer.ReferenceStorer interface.
+//
+// The references of the temporal storage shadow the ones of the base
+// storage, and the references removed in this transaction are not listed.
 func (r ReferenceStorage) IterReferences() (storer.ReferenceIter, error) {
-	baseIter, err := r.ReferenceStorer.IterReferences()
-	if err != nil {
-		return nil, err
-	}
-
 	temporalIter, err := r.temporal.IterReferences()
 	if err != nil {
 		return nil, err
 	}
 
-	return storer.NewMultiReferenceIter([]storer.ReferenceIter{
-		baseIter,
-		temporalIter,
-	}), nil
+	var refs []*plumbing.Reference
+	seen := make(map[plumbing.ReferenceName]struct{})
+	err = temporalIter.ForEach(func(ref *plumbing.Reference) error {
+		seen[ref.Name()] = struct{}{}
+		refs = append(refs, ref)
+		return nil
+	})
+	if err != nil {
+		return nil, err
+	}
+
+	baseIter, err := r.ReferenceStorer.IterReferences()
+	if err != nil {
+		return nil, err
+	}
+
+	err = baseIter.ForEach(func(ref *plumbing.Reference) error {
+		if _, ok := seen[ref.Name()]; ok {
+			return nil
+		}
+		if _, ok := r.deleted[ref.Name()]; ok {
+			return nil
+		}
+		refs = append(refs, ref)
+		return nil
+	})
+	if err != nil {
+		return nil, err
+	}
+
+	return storer.NewReferenceSliceIter(refs), nil
 }
 
 // CountLooseRefs honors the storer.ReferenceStorer interface.
